@@ -500,6 +500,8 @@ func Scenarios() []History {
 		{Name: "Define", Signer: "o1", Svc: "vsvcmod"},
 		// a service reserved by a module cannot be bound by a user (the module's own name is free)
 		{Name: "Bind", Signer: "o1", Svc: "msvc", Prov: "p1", Deposit: 40, DShape: "ok", Pr: pr(5), Qos: 1},
+		{Name: "Bind", Signer: "o1", Svc: "msvc", Prov: "p3", Deposit: 40, DShape: "ok", Pr: pr(5), Qos: 1}, // (the module's own provider, by a stranger)
+		{Name: "Bind", Signer: "p3", Svc: "msvc", Prov: "p3", Deposit: 40, DShape: "ok", Pr: pr(5), Qos: 1}, // (and by that account itself)
 		{Name: "Bind", Signer: "o1", Svc: "vsvcmod", Prov: "p1", Deposit: 40, DShape: "ok", Pr: pr(5), Qos: 1},
 		{Name: "Call", Signer: "c1", Svc: "msvc", Provs: []string{"p1"}, Cap: 10, Timeout: 2},
 		eb(1), eb(1), eb(1),
